@@ -10,114 +10,291 @@ import (
 	"golang.org/x/tools/go/ssa"
 )
 
-// LOOP-BUDGET: a loop that is driven by an explicit stack of pending work (a slice of slices that
-// is popped by the loop and pushed to inside it: saved continuations of subroutine calls) can
-// terminate and still do an amount of work that is exponential in the size of the input — every
-// level of nesting multiplies it by the number of pushes per item, and a depth limit only bounds
-// the exponent.  Such a loop nest must carry a step budget: an integer that is only ever
-// incremented within the nest (never reset), whose increment dominates every push, and that is
-// compared with a constant on a branch that leaves the nest.
-func (c *Ctx) workStackBudgets(fns []*ssa.Function) {
-	n := 0
-	for _, fn := range fns {
-		headers := map[*ssa.BasicBlock][]*ssa.BasicBlock{}
-		for _, b := range fn.Blocks {
-			for _, s := range b.Succs {
-				if s.Dominates(b) {
-					headers[s] = append(headers[s], b)
-				}
+// LOOP-BUDGET: a loop that is driven by an explicit stack of pending work (saved continuations of
+// subroutine calls, procedures still to be visited) pops an item per iteration and pushes more
+// inside.  Such a loop can terminate and still do an amount of work that is exponential in the
+// size of the input — every level of nesting multiplies it by the number of pushes per item, and
+// a depth limit only bounds the exponent.  The nest must bound the number of pushes:
+//
+//   step budget   an integer that is only ever incremented within the nest (never reset), whose
+//                 increment dominates every push, and that is compared with a constant on a
+//                 branch that leaves the nest; or
+//   visited set   every push is dominated by the test that a key is absent from a set and by the
+//                 entry of that key into the set (each key causes pushes at most once).
+//
+// The stack may be a slice of slices (append / re-slice) or an array of slices with a depth
+// counter.  A work loop with a bounded number of pushes that pops on every iteration terminates:
+// it is classified as such by the LOOP rule (class P5).
+
+type workStack struct {
+	fn     *ssa.Function
+	h      *ssa.BasicBlock
+	body   map[*ssa.BasicBlock]bool
+	name   string
+	pushes []ssa.Instruction
+	pops   []ssa.Instruction
+}
+
+func loopBodies(fn *ssa.Function) (hs []*ssa.BasicBlock, bodyOf func(h *ssa.BasicBlock) map[*ssa.BasicBlock]bool) {
+	headers := map[*ssa.BasicBlock][]*ssa.BasicBlock{}
+	for _, b := range fn.Blocks {
+		for _, s := range b.Succs {
+			if s.Dominates(b) {
+				headers[s] = append(headers[s], b)
 			}
 		}
-		if len(headers) == 0 {
-			continue
+	}
+	for h := range headers {
+		hs = append(hs, h)
+	}
+	sort.Slice(hs, func(i, j int) bool { return hs[i].Index < hs[j].Index })
+	cache := map[*ssa.BasicBlock]map[*ssa.BasicBlock]bool{}
+	bodyOf = func(h *ssa.BasicBlock) map[*ssa.BasicBlock]bool {
+		if b, ok := cache[h]; ok {
+			return b
 		}
-		bodyOf := func(h *ssa.BasicBlock) map[*ssa.BasicBlock]bool {
-			body := map[*ssa.BasicBlock]bool{h: true}
-			st := append([]*ssa.BasicBlock{}, headers[h]...)
-			for len(st) > 0 {
-				x := st[len(st)-1]
-				st = st[:len(st)-1]
-				if body[x] {
-					continue
-				}
-				body[x] = true
-				st = append(st, x.Preds...)
+		body := map[*ssa.BasicBlock]bool{h: true}
+		st := append([]*ssa.BasicBlock{}, headers[h]...)
+		for len(st) > 0 {
+			x := st[len(st)-1]
+			st = st[:len(st)-1]
+			if body[x] {
+				continue
 			}
-			return body
+			body[x] = true
+			st = append(st, x.Preds...)
 		}
-		var hs []*ssa.BasicBlock
-		for h := range headers {
-			hs = append(hs, h)
+		cache[h] = body
+		return body
+	}
+	return
+}
+
+func isSliceOfSlices(t types.Type) bool {
+	switch u := t.Underlying().(type) {
+	case *types.Slice:
+		_, ok := u.Elem().Underlying().(*types.Slice)
+		return ok
+	case *types.Array:
+		_, ok := u.Elem().Underlying().(*types.Slice)
+		return ok
+	case *types.Pointer:
+		if a, ok := u.Elem().Underlying().(*types.Array); ok {
+			_, ok := a.Elem().Underlying().(*types.Slice)
+			return ok
 		}
-		sort.Slice(hs, func(i, j int) bool { return hs[i].Index < hs[j].Index })
-		for _, h := range hs {
-			body := bodyOf(h)
-			// a stack of work items carried by this loop: a phi of type [][]T at the header that is
-			// popped (re-sliced to len-1) and pushed (append) inside the loop
-			for _, ins := range h.Instrs {
-				phi, ok := ins.(*ssa.Phi)
-				if !ok {
-					break
-				}
-				st, ok := phi.Type().Underlying().(*types.Slice)
-				if !ok {
-					continue
-				}
-				if _, inner := st.Elem().Underlying().(*types.Slice); !inner {
-					continue
-				}
-				var pops, pushes []ssa.Instruction
-				seen := map[ssa.Value]bool{}
-				var walk func(v ssa.Value)
-				walk = func(v ssa.Value) {
-					if seen[v] || v.Referrers() == nil {
-						return
-					}
-					seen[v] = true
-					for _, r := range *v.Referrers() {
-						if !body[r.Block()] {
-							continue
+	}
+	return false
+}
+
+// workStacksOf finds the loops of fn that are driven by a stack of pending work.
+func workStacksOf(fn *ssa.Function) []workStack {
+	var out []workStack
+	hs, bodyOf := loopBodies(fn)
+	for _, h := range hs {
+		body := bodyOf(h)
+		for _, ins := range h.Instrs {
+			phi, ok := ins.(*ssa.Phi)
+			if !ok {
+				break
+			}
+			// (a) a slice of slices carried by the loop, popped by re-slicing, pushed by append
+			if st, ok := phi.Type().Underlying().(*types.Slice); ok {
+				if _, inner := st.Elem().Underlying().(*types.Slice); inner {
+					ws := workStack{fn: fn, h: h, body: body, name: phi.Comment}
+					seen := map[ssa.Value]bool{}
+					var walk func(v ssa.Value)
+					walk = func(v ssa.Value) {
+						if seen[v] || v.Referrers() == nil {
+							return
 						}
-						switch r := r.(type) {
-						case *ssa.Slice:
-							if r.X == v && r.Low == nil && r.High != nil {
-								if bo, ok := r.High.(*ssa.BinOp); ok && bo.Op == token.SUB {
-									pops = append(pops, r)
+						seen[v] = true
+						for _, r := range *v.Referrers() {
+							if !body[r.Block()] {
+								continue
+							}
+							switch r := r.(type) {
+							case *ssa.Slice:
+								if r.X == v && r.Low == nil && r.High != nil {
+									if bo, ok := r.High.(*ssa.BinOp); ok && bo.Op == token.SUB {
+										ws.pops = append(ws.pops, r)
+									}
+								}
+								walk(r)
+							case *ssa.Phi:
+								walk(r)
+							case *ssa.Call:
+								if b, ok := r.Call.Value.(*ssa.Builtin); ok && b.Name() == "append" && len(r.Call.Args) > 0 && r.Call.Args[0] == v {
+									ws.pushes = append(ws.pushes, r)
+									walk(r)
 								}
 							}
-							walk(r)
-						case *ssa.Phi:
-							walk(r)
-						case *ssa.Call:
-							if b, ok := r.Call.Value.(*ssa.Builtin); ok && b.Name() == "append" && len(r.Call.Args) > 0 && r.Call.Args[0] == v {
-								pushes = append(pushes, r)
-								walk(r)
+						}
+					}
+					walk(phi)
+					if len(ws.pops) > 0 && len(ws.pushes) > 0 {
+						out = append(out, ws)
+					}
+					continue
+				}
+			}
+			// (b) a depth counter into an array (or slice) of slices: decremented and used to load an
+			// item, incremented next to a store of an item
+			if _, _, isInt := isIntType(phi.Type()); isInt {
+				ws := workStack{fn: fn, h: h, body: body, name: phi.Comment}
+				// values of the counter inside the loop: the phi, phi±const, phis of those
+				fam := map[ssa.Value]bool{phi: true}
+				for changed := true; changed; {
+					changed = false
+					for b := range body {
+						for _, in := range b.Instrs {
+							switch x := in.(type) {
+							case *ssa.BinOp:
+								if (x.Op == token.ADD || x.Op == token.SUB) && fam[x.X] && !fam[x] {
+									if _, ok := constIntVal(x.Y); ok {
+										fam[x] = true
+										changed = true
+									}
+								}
+							case *ssa.Phi:
+								if !fam[x] {
+									for _, e := range x.Edges {
+										if fam[e] {
+											fam[x] = true
+											changed = true
+											break
+										}
+									}
+								}
+							}
+						}
+					}
+					if len(fam) > 30 {
+						break
+					}
+				}
+				for b := range body {
+					for _, in := range b.Instrs {
+						ix, ok := in.(*ssa.IndexAddr)
+						if !ok || !fam[ix.Index] || !isSliceOfSlices(ix.X.Type()) {
+							continue
+						}
+						for _, r := range *ix.Referrers() {
+							switch r := r.(type) {
+							case *ssa.Store:
+								if r.Addr == ssa.Value(ix) && body[r.Block()] {
+									ws.pushes = append(ws.pushes, r)
+								}
+							case *ssa.UnOp:
+								if r.Op == token.MUL && body[r.Block()] {
+									ws.pops = append(ws.pops, r)
+								}
 							}
 						}
 					}
 				}
-				walk(phi)
-				if len(pops) == 0 || len(pushes) == 0 {
-					continue
-				}
-				n++
-				fname := c.fname(fn)
-				construct := "work stack " + phi.Comment + " of the loop at " + loopShape(c, h)
-				why, ok := stepBudget(fn, h, body, pushes)
-				if ok {
-					c.ok("LOOP-BUDGET", fname, construct, firstPos(h), why, "")
-				} else {
-					c.fail("LOOP-BUDGET", fname, construct, firstPos(h),
-						"the loop pops pending work from a stack and pushes more inside; the nesting is limited but the total number of steps is not ("+why+"): input of n bytes can cause (pushes per item)^(depth limit) steps, i.e. the reader runs for hours on a file of a few kilobytes")
+				if len(ws.pops) > 0 && len(ws.pushes) > 0 {
+					out = append(out, ws)
 				}
 			}
 		}
 	}
-	c.floor("LOOP-BUDGET", 1)
-	_ = n
+	return out
 }
 
-// stepBudget looks for the step counter of the loop nest (see workStackBudgets).
+// bounded: the number of pushes of the work stack is bounded (see the file comment).
+func (ws *workStack) bounded() (string, bool) {
+	if why, ok := stepBudget(ws.fn, ws.h, ws.body, ws.pushes); ok {
+		return why, true
+	} else if why2, ok := visitedBound(ws); ok {
+		return why2, true
+	} else {
+		return why, false
+	}
+}
+
+// visitedBound: every push is dominated by `seen[k]` being false and by `seen[k] = …` for the
+// same key, inside the loop (so each key causes pushes at most once).
+func visitedBound(ws *workStack) (string, bool) {
+	for _, p := range ws.pushes {
+		ok := false
+		for b := range ws.body {
+			for _, ins := range b.Instrs {
+				mu, isMU := ins.(*ssa.MapUpdate)
+				if !isMU || !dominatesInstr(mu, p) {
+					continue
+				}
+				for _, cd := range domConds(p.Block()) {
+					lk := lookupOf(cd.v)
+					if lk == nil || origin(lk.X) != origin(mu.Map) || !sameKey(lk.Index, mu.Key) || !ws.body[lk.Block()] {
+						continue
+					}
+					if !cd.truth {
+						ok = true
+					}
+				}
+			}
+		}
+		if !ok {
+			return "", false
+		}
+	}
+	return "visited set: every push is made after a key was found absent from a set and entered into it in the same iteration; each key causes pushes at most once", true
+}
+
+func (c *Ctx) workStackBudgets(fns []*ssa.Function) {
+	for _, fn := range fns {
+		for _, ws := range workStacksOf(fn) {
+			ws := ws
+			fname := c.fname(fn)
+			construct := "work stack " + ws.name + " of the loop at " + loopShape(c, ws.h)
+			why, ok := ws.bounded()
+			if ok {
+				c.ok("LOOP-BUDGET", fname, construct, firstPos(ws.h), why, "")
+			} else {
+				c.fail("LOOP-BUDGET", fname, construct, firstPos(ws.h),
+					"the loop pops pending work from a stack and pushes more inside; the nesting is limited but the total number of pushes is not ("+why+"): input of n bytes can cause (pushes per item)^(depth limit) steps, i.e. the reader runs for hours on a file of a few kilobytes")
+			}
+		}
+	}
+	c.floor("LOOP-BUDGET", 1)
+}
+
+// workLoopClass: the loop at h is a work loop that pops on every iteration and whose pushes are
+// bounded; then it terminates.
+func workLoopClass(fn *ssa.Function, h *ssa.BasicBlock) (string, bool) {
+	for _, ws := range workStacksOf(fn) {
+		if ws.h != h {
+			continue
+		}
+		why, ok := ws.bounded()
+		if !ok {
+			continue
+		}
+		// every iteration pops: a pop dominates every back edge source
+		popsAlways := false
+		for _, p := range ws.pops {
+			all := true
+			for _, pred := range h.Preds {
+				if !ws.body[pred] {
+					continue
+				}
+				if !(p.Block() == pred || p.Block().Dominates(pred)) {
+					all = false
+				}
+			}
+			if all {
+				popsAlways = true
+			}
+		}
+		if popsAlways {
+			return "every iteration removes an item from the stack of pending work, and the number of items ever added is bounded (" + why + ")", true
+		}
+	}
+	return "", false
+}
+
+// stepBudget looks for the step counter of the loop nest (see the file comment).
 func stepBudget(fn *ssa.Function, h *ssa.BasicBlock, body map[*ssa.BasicBlock]bool, pushes []ssa.Instruction) (string, bool) {
 	why := "no counter found"
 	for _, b := range fn.Blocks {
@@ -153,8 +330,7 @@ func stepBudget(fn *ssa.Function, h *ssa.BasicBlock, body map[*ssa.BasicBlock]bo
 							// entering the nest: any value
 							continue
 						}
-						if cst, isC := e.(*ssa.Const); isC {
-							_ = cst
+						if _, isC := e.(*ssa.Const); isC {
 							okFam = false // reset inside the nest
 							continue
 						}
